@@ -282,12 +282,12 @@ func (c ConstantMap) Link(scope Scope, t TypeSpec) (ConstantValue, error) {
 
 	items := make([]ConstantValuePair, len(c))
 	for i, item := range c {
-		key, err := item.Key.Link(scope, m.KeySpec)
+		key, err := item.Key.Link(scope, pendingType(m.KeySpec, m.linkScope))
 		if err != nil {
 			return nil, err
 		}
 
-		value, err := item.Value.Link(scope, m.ValueSpec)
+		value, err := item.Value.Link(scope, pendingType(m.ValueSpec, m.linkScope))
 		if err != nil {
 			return nil, err
 		}
@@ -313,7 +313,7 @@ func (c ConstantSet) Link(scope Scope, t TypeSpec) (ConstantValue, error) {
 	// TODO(abg): Fail for duplicates
 	values := make([]ConstantValue, len(c))
 	for i, v := range c {
-		value, err := v.Link(scope, s.ValueSpec)
+		value, err := v.Link(scope, pendingType(s.ValueSpec, s.linkScope))
 		if err != nil {
 			return nil, err
 		}
@@ -348,7 +348,7 @@ func (c ConstantList) Link(scope Scope, t TypeSpec) (ConstantValue, error) {
 
 	values := make([]ConstantValue, len(c))
 	for i, v := range c {
-		value, err := v.Link(scope, l.ValueSpec)
+		value, err := v.Link(scope, pendingType(l.ValueSpec, l.linkScope))
 		if err != nil {
 			return nil, err
 		}
